@@ -79,7 +79,8 @@ def neighbours(keys, L):
 def gen_cfg(rng, max_width=16):
     r = rng.random()
     w = int(rng.integers(1, 3)) if r < 0.5 else int(rng.integers(3, max_width + 1))
-    return {"kind": "hh", "width": w, "depth": int(rng.integers(1, 5)), "max_key_len": pick(rng, [1, 2, 3, 4, 4, 8, 8, 16])}
+    return {"kind": "hh", "width": w, "depth": int(rng.integers(1, 5)),
+            "max_key_len": pick(rng, [1, 2, 3, 4, 4, 8, 8, 16]) if rng.random() < 0.5 else int(rng.integers(1, 17))}
 
 
 def gen_history_case(rng, ctx, big=0.1, n_ev=(5, 50), saveload=0.06, zero=0.05, max_width=16, queries=False):
